@@ -374,6 +374,18 @@ fn specs(quick: bool) -> Vec<ConvSpec> {
             uniform_read: ur,
             write_cap: wc,
         });
+        // hundreds of commands arriving in one read (only with whole reads)
+        if ur == usize::MAX && wc == usize::MAX {
+            v.push(ConvSpec {
+                label: "300 pipelined queries + ping (whole reads)".into(),
+                cmds: (0..300).map(|i| q(format!("query number {} {}", i, "y".repeat(i % 17)).as_bytes())).chain(std::iter::once(ping())).collect(),
+                progs: vec![],
+                fail_at: None,
+                auth_reject: false,
+                uniform_read: ur,
+                write_cap: wc,
+            });
+        }
         // auth rejection with a pipelined command
         v.push(ConvSpec {
             label: format!("authentication rejected, query pipelined ({})", mname),
